@@ -1,7 +1,7 @@
 """C05 - Sid -> path -> Sid is the identity in every path configuration"""
 from ..rules import exc, forward, pathops, config, memo
 
-DECIDES = ('one configuration end to end (R-FWD over the path-config domain incl. resolver ids); forward and reverse mapping read the same tables (R-MAPAGREE); field order restored from key_types (R-KEYORDER, R-KEYTYPES); a path is typed only if it formats back to itself (R-REFORMAT); configurations are the same tables up to the root and independent of load order (R-ROOT / R-IDEM on the folded tables, both load orders); mappings one-to-one (R-MAPINJ); unambiguous file-name segments (R-SEGAMB); no concrete path is accepted by two path templates of one configuration (R-DISJ, NFA product emptiness on the expressions resolva builds); path() answers None instead of raising (R-NOPATH, R-EXC); the memo key holds the configuration (R-KEY, R-WRAP). A path is typed by resolve_first(path) over all path templates in configuration order (resolve_one only for a given type), with no exit before that and no template picked beside the resolver, and the Sid gets the type found for the path (R-PATHFIRST).')
+DECIDES = ('one configuration end to end (R-FWD over the path-config domain incl. resolver ids); forward and reverse mapping read the same tables (R-MAPAGREE); field order restored from key_types (R-KEYORDER, R-KEYTYPES); a path is typed only if it formats back to itself (R-REFORMAT); configurations are the same tables up to the root and independent of load order (R-ROOT / R-IDEM on the folded tables, both load orders); mappings one-to-one (R-MAPINJ); unambiguous file-name segments (R-SEGAMB); no concrete path is accepted by two path templates of one configuration (R-DISJ, NFA product emptiness on the expressions resolva builds); path() answers None instead of raising (R-NOPATH, R-EXC); the memo key holds the configuration (R-KEY, R-WRAP). A path is typed by resolve_first(path) over all path templates in configuration order (resolve_one only for a given type), with no exit before that and no template picked beside the resolver, and the Sid gets the type found for the path (R-PATHFIRST). No module-level name of a path configuration module replaces an attribute PathConfig sets itself, in particular `name`, the Resolver key (R-CONFSHADOW); path() answers dict_to_path(own fields, own type, config) or None, nothing borrowed (R-NOPATH).')
 DOES_NOT_DECIDE = 'equality for concrete values beyond the configuration-level argument (regular-expression evaluation)'
 
 
@@ -22,4 +22,5 @@ def rules(ctx, tier):
         lambda: memo.rule_wrap(ctx),
         lambda: memo.rule_purememo(ctx),
         lambda: config.rule_disj(ctx),
+        lambda: config.rule_confshadow(ctx),
     ]
